@@ -690,7 +690,8 @@ func c05ReadErr(c *Ctx, p *Prog, rule string) {
 			continue
 		}
 		if _, isPhi := v.(*ssa.Phi); !isPhi {
-			bad = "return at " + p.InstrPos(r) + " does not return the error variable fed by readPackets"
+			// another value returned directly: judged like a value entering the error variable here
+			leaves = append(leaves, leaf{v, r.Block(), nil})
 			continue
 		}
 		walk(v)
@@ -704,12 +705,14 @@ func c05ReadErr(c *Ctx, p *Prog, rule string) {
 			continue // before the first readPackets call
 		}
 		fs := append([]Fact{}, ff.NC(l.from)...)
-		if ef, ok := edgeFact(l.from, l.to); ok {
-			fs = append(fs, ef)
+		if l.to != nil {
+			if ef, ok := edgeFact(l.from, l.to); ok {
+				fs = append(fs, ef)
+			}
 		}
 		ok := false
 		for _, f := range fs {
-			if x, isNil, k := FactNilCmp(f); k && isNil && (web[unspill(x)] || unspill(x) == ssa.Value(E)) {
+			if x, isNil, k := FactNilCmp(f); k && isNil && (web[x] || web[unspill(x)] || unspill(x) == ssa.Value(E)) {
 				ok = true
 			}
 			if call, k := p.FactCallBool(f, "errors.Is"); k && f.Pol && unspill(call.Common().Args[0]) == ssa.Value(E) {
@@ -719,7 +722,11 @@ func c05ReadErr(c *Ctx, p *Prog, rule string) {
 			}
 		}
 		if !ok {
-			bad = fmt.Sprintf("the value %s replaces the pending error on the edge %s -> %s without the pending error being known nil or ErrAgain: a fatal frame error can be lost", p.valString(l.v), l.from.Comment, l.to.Comment)
+			to := "return"
+			if l.to != nil {
+				to = l.to.Comment
+			}
+			bad = fmt.Sprintf("the value %s replaces the pending error on the edge %s -> %s without the pending error being known nil or ErrAgain: a fatal frame error can be lost", p.valString(l.v), l.from.Comment, to)
 		}
 	}
 	// the loop may only go round again while the pending error is nil or the sentinel (otherwise the next readPackets overwrites it)
